@@ -103,6 +103,10 @@ pub struct NoteV {
     /// spent by a transaction of a rewound block that the wallet still treats as unexpired
     /// (diagnostics only: the wallet may legitimately refuse such a note)
     pub spent_orphan: bool,
+    /// the user marked the note's transaction as trusted (`set_tx_trust`)
+    pub tx_trusted: bool,
+    /// shielding output: every transparent input's transaction is marked trusted
+    pub shield_all_trusted: bool,
 }
 
 #[derive(Clone, Debug)]
@@ -116,6 +120,8 @@ pub struct CoinV {
     pub spent_pending: bool,
     pub lock: Option<LockM>,
     pub from_wallet_tx: bool,
+    /// the user marked the coin's transaction as trusted
+    pub tx_trusted: bool,
 }
 
 /// The model's picture of the wallet at one instant (target = wallet chain tip + 1).
@@ -151,6 +157,22 @@ pub fn pending_unexpired(p: &PendingM, target: u32) -> bool {
 
 impl Model {
     pub fn view(&self, sim: &ChainSim, w: &WalletUnderTest, target: u32) -> View {
+        // Trust marks are user-supplied metadata; the model takes "which transactions are marked" from
+        // what the wallet retains and re-derives what follows from it.
+        let trusted: BTreeSet<TxIdBytes> = {
+            let conn = w.db.conn();
+            let mut out = BTreeSet::new();
+            if let Ok(mut st) = conn.prepare("SELECT txid FROM transactions WHERE trust_status = 1") {
+                if let Ok(rows) = st.query_map([], |r| r.get::<_, Vec<u8>>(0)) {
+                    for t in rows.flatten() {
+                        if let Ok(a) = <[u8; 32]>::try_from(t.as_slice()) {
+                            out.insert(a);
+                        }
+                    }
+                }
+            }
+            out
+        };
         let mut notes: BTreeMap<NoteKey, NoteV> = BTreeMap::new();
         let mut tx_height: BTreeMap<TxIdBytes, u32> = BTreeMap::new();
         for (h, uid) in &w.scanned {
@@ -174,6 +196,8 @@ impl Model {
                             wallet_tx: self.wallet_txids.contains(&tx.txid),
                             shield_src: None,
                             spent_orphan: false,
+                            tx_trusted: trusted.contains(&tx.txid),
+                            shield_all_trusted: false,
                         },
                     );
                 }
@@ -217,6 +241,7 @@ impl Model {
                     spent_pending: false,
                     lock: self.locks.get(&InKey::Coin(k.0, k.1)).copied(),
                     from_wallet_tx: c.from_wallet_tx,
+                    tx_trusted: trusted.contains(&k.0),
                 },
             );
         }
@@ -253,6 +278,7 @@ impl Model {
                 // (the note then counts as an ordinary trusted output)
                 let mx: Option<u32> = ins.iter().filter_map(|k| coins.get(k).and_then(|c| c.mined)).max();
                 n.shield_src = mx.map(Some);
+                n.shield_all_trusted = !ins.is_empty() && ins.iter().all(|k| trusted.contains(&k.0));
             }
         }
         let tip = target - 1;
@@ -311,9 +337,16 @@ impl View {
         if confs < pol.trusted {
             return false;
         }
+        // an explicitly trusted transaction's outputs need only the trusted depth
+        if n.tx_trusted {
+            return true;
+        }
         if let Some(src) = n.shield_src {
+            // ... and a shielding output inherits the depth of its transparent sources, at the
+            // trusted depth only if EVERY source transaction is marked trusted
+            let need = if n.shield_all_trusted { pol.trusted } else { pol.untrusted };
             return match src {
-                Some(h) => self.target.saturating_sub(h) >= pol.untrusted,
+                Some(h) => self.target.saturating_sub(h) >= need,
                 None => false,
             };
         }
@@ -362,7 +395,7 @@ impl View {
                     return false;
                 }
                 let confs = self.target - h;
-                if c.from_wallet_tx {
+                if c.from_wallet_tx || c.tx_trusted {
                     confs >= pol.trusted
                 } else {
                     confs >= pol.untrusted
